@@ -49,7 +49,7 @@ def run(R):
             R.check(okc, 'C11.R1', 'client:%s:path-from-formatter' % k, site(b), 'format_method_path(service, method, emit_package): %d site(s)' % len(c))
             s2 = b.calls(name='format_service_name')
             R.check(len(s2) == 1 and strip_refs(b.origin(s2[0][1]['args'][1])) == strip_refs(b.origin(c[0][1]['args'][2])) if c else False, 'C11.R1', 'client:%s:service-name-from-formatter' % k, site(b), 'GrpcMethod service name from format_service_name(service, emit_package)')
-        callers = sorted({short(bd.path) for bd, bb, t in call_sites_in_crate(tb, name='format_method_path')})
+        callers = sorted({re.sub(r'(::\{closure#\d+\})+$', '', short(bd.path)) for bd, bb, t in call_sites_in_crate(tb, name='format_method_path')})
         R.eq(callers, ['tonic_build::client::generate_client_streaming', 'tonic_build::client::generate_server_streaming', 'tonic_build::client::generate_streaming', 'tonic_build::client::generate_unary', 'tonic_build::server::generate_methods'],
              'C11.R1', 'formatter-callers', '', 'callers of format_method_path')
         pg = tb.body(re.compile(r'<prost::ServiceGenerator as prost_build::ServiceGenerator>::generate$'))
@@ -87,7 +87,7 @@ def run(R):
                 table[(cs, ss)] = leaves[bb][9:]
             for k, v in KIND_TABLE.items():
                 R.eq(table.get(k), v, 'C11.R2', '%s:kind:%s' % (side, v), site(b), 'leaf generator for (client_streaming=%s, server_streaming=%s)' % k)
-        sb = tb.body('tonic_build::server::generate_methods')
+        sb = focus_body(tb, 'tonic_build::server::generate_methods', name='client_streaming')
         R.saw(sb)
         # the server side switches on the same two flags and names the runtime entry point / service trait in its templates
         cs = sb.calls(name='client_streaming')
